@@ -33,6 +33,14 @@ def _run(ctx, ncases):
     if hj:
       extra = f'<actuator><motor joint="{hj[0]}"/><general joint="{hj[0]}" dyntype="filter" dynprm="0.05"/></actuator><sensor><jointpos joint="{hj[0]}"' + \
               (' delay="0.008" nsample="3"' if delay else "") + f'/><jointvel joint="{hj[0]}"/></sensor>'
+    # tendons with damping/stiffness (spatial through two sites, fixed over scalar joints): their passive forces ACCUMULATE into
+    # qfrc_spring/qfrc_damper, which must be re-initialised by every forward() for every joint type (undamped ball joints included)
+    if len(sp.sites) >= 2 and rng.random() < 0.6:
+      a, b = rng.choice(len(sp.sites), size=2, replace=False)
+      extra += f'<tendon><spatial damping="{rng.uniform(0.5, 3):.2f}" stiffness="{rng.uniform(0, 5):.2f}"><site site="{sp.sites[a]}"/><site site="{sp.sites[b]}"/></spatial>'
+      if len(hj) >= 2:
+        extra += f'<fixed damping="0.7"><joint joint="{hj[0]}" coef="1"/><joint joint="{hj[1]}" coef="-0.5"/></fixed>'
+      extra += '</tendon>'
     xml = models.wrap(wb, option=f'timestep="0.004" integrator="{integ}"' + cone + jac, extra=extra)
     xml = xml.replace('type="hinge"', 'type="hinge" damping="0.2" limited="true" range="-1 1"')
     try:
@@ -90,7 +98,7 @@ RULE = ("random trees over a floor with actuators (incl. a filter activation) an
 
 
 def correspondence(ctx):
-  acc = _run(ctx, 20 if ctx.thorough else 5)
+  acc = _run(ctx, 40 if ctx.thorough else 12)
   return result(acc, RULE)
 
 
